@@ -133,14 +133,15 @@ impl TempNames {
             map: HashMap::new(),
         }
     }
-    /// `.tmpXXXXXX` components become `T<n>` in order of first appearance.
+    /// Hidden components (`.tmpXXXXXX` of tempfile, or whatever staging name the code under
+    /// test invents: `.out.hex.123.partial`) become `T<n>` in order of first appearance.
     pub fn norm(&mut self, p: &str) -> String {
-        if !p.contains(".tmp") {
+        if !p.contains("/.") && !p.starts_with('.') {
             return p.to_string();
         }
         let mut out = Vec::new();
         for comp in p.split('/') {
-            if comp.starts_with(".tmp") && comp.len() >= 8 {
+            if is_hidden_name(comp) {
                 let n = self.map.len();
                 let e = self
                     .map
@@ -155,29 +156,58 @@ impl TempNames {
     }
 }
 
+/// a dot file with a real name: not `.`, `..`, nor a short extension-like fragment
+fn is_hidden_name(comp: &str) -> bool {
+    comp.starts_with('.') && comp.len() >= 5 && comp != ".." && !comp.starts_with("..")
+}
+
+fn name_char(c: u8) -> bool {
+    c.is_ascii_alphanumeric() || c == b'.' || c == b'_' || c == b'-'
+}
+
 impl TempNames {
     /// Free text (error messages): sandbox root and temporary names are normalised.
     pub fn norm_text(&mut self, t: &str) -> String {
         let t = t.replace(seam::root(), "<sandbox>");
-        if !t.contains(".tmp") {
+        if !t.contains("/.") && !t.contains(".tmp") {
             return t;
         }
         let b = t.as_bytes();
         let mut out = String::new();
         let mut i = 0;
         while i < b.len() {
-            if b[i..].starts_with(b".tmp")
-                && i + 10 <= b.len()
-                && b[i + 4..i + 10].iter().all(|c| c.is_ascii_alphanumeric())
-            {
-                let name = &t[i..i + 10];
+            // a hidden name directly after a path separator, or tempfile's bare `.tmpXXXXXX`
+            let after_sep = i > 0 && b[i - 1] == b'/';
+            let mut end = i;
+            if b[i] == b'.' && (after_sep || b[i..].starts_with(b".tmp")) {
+                end = i + 1;
+                while end < b.len() && name_char(b[end]) {
+                    end += 1;
+                }
+                // punctuation of the sentence is not part of the name
+                while end > i + 1 && b[end - 1] == b'.' {
+                    end -= 1;
+                }
+                if !after_sep {
+                    // bare form: exactly `.tmp` + six characters, as before
+                    end = if i + 10 <= b.len()
+                        && b[i + 4..i + 10].iter().all(|c| c.is_ascii_alphanumeric())
+                    {
+                        i + 10
+                    } else {
+                        i
+                    };
+                }
+            }
+            if end > i && is_hidden_name(&t[i..end]) {
+                let name = &t[i..end];
                 let n = self.map.len();
                 let e = self
                     .map
                     .entry(name.to_string())
                     .or_insert_with(|| format!("T{}", n));
                 out.push_str(e);
-                i += 10;
+                i = end;
             } else {
                 // `t` may hold multi-byte characters: copy one whole character
                 let ch = t[i..].chars().next().unwrap();
